@@ -877,12 +877,19 @@ def parse_args(
                 raise ValueError("fg specified twice")
             kwargs["bg"] = BG_COLORS[cast(str, arg[3:].lower())]
         elif arg.lower() in STYLES:
+            if kwargs.get(arg.lower(), True) is False:
+                raise ValueError(f"{arg.lower()} both named and switched off")
             kwargs[arg.lower()] = True
         else:
             raise ValueError(f"couldn't process arg: {args!r}")
     for k in kwargs:
         if k not in ("fg", "bg") and k not in STYLES.keys():
             raise ValueError("Can't apply that transformation")
+    for k in ("fg", "bg"):
+        if k in kwargs and (
+            not isinstance(kwargs[k], (int, str)) or isinstance(kwargs[k], bool)
+        ):
+            raise ValueError(f"Bad {k} value: {kwargs[k]!r}")
     if "fg" in kwargs:
         if kwargs["fg"] in FG_COLORS:
             kwargs["fg"] = FG_COLORS[cast(str, kwargs["fg"])]
